@@ -374,6 +374,13 @@ def _life(shape, args, ctx):
                             ctx.require(len(got) == len(ref) and all(x is y for x, y in zip(got, ref)), 'find_assets != reference filter')
                 for a in mine:
                     ctx.require(s.find_assets(id_=a.id) == [a], 'find_assets by id wrong')
+                    for name in [None, 'a0', 'a1']:
+                        for typ in [None, PartHandler, Sink]:
+                            for sub in [None, PartHandler]:
+                                want = [a] if ((name is None or a.name == name) and (typ is None or type(a) is typ)
+                                               and (sub is None or isinstance(a, sub))) else []
+                                ctx.require(s.find_assets(name=name, id_=a.id, type_=typ, subtype=sub) == want,
+                                            'find_assets != reference filter (id combined with other filters)')
     finally:
         Asset.initialize = orig_init
 
